@@ -13,6 +13,7 @@ Inductive bop := BAdd | BSub | BMul | BDiv | BMod | BAnd | CLt | CLe | CEq | CNe
 
 Inductive sexp :=
 | SInt (z : Z) | SBool (b : bool) | SNil
+| SVar (i : nat)                       (* the i-th declared top-level variable *)
 | SNeg (e : sexp) | SNot (e : sexp)
 | SBin (o : bop) (a b : sexp)
 | SLand (a b : sexp) | SLor (a b : sexp)
@@ -24,20 +25,32 @@ Definition op_text (o : bop) : list N :=
   | CLt => [60] | CLe => [60;61] | CEq => [61;61] | CNe => [33;61] | CGt => [62] | CGe => [62;61]
   end%N.
 
-Fixpoint embed (e : sexp) : node :=
+(* [names]: the names of the declared variables, in declaration order *)
+Fixpoint embed (names : list (list N)) (e : sexp) : node :=
   match e with
   | SInt z => NInt z | SBool b => NBool b | SNil => NNil
-  | SNeg a => NPrefix [45%N] (embed a)
-  | SNot a => NPrefix [33%N] (embed a)
-  | SBin o a b => NInfix (op_text o) (embed a) (embed b)
-  | SLand a b => NInfix [38;38]%N (embed a) (embed b)
-  | SLor a b => NInfix [124;124]%N (embed a) (embed b)
-  | STern c t f => NTernary (embed c) (embed t) (embed f)
+  | SVar i => NIdent (nth i names [])
+  | SNeg a => NPrefix [45%N] (embed names a)
+  | SNot a => NPrefix [33%N] (embed names a)
+  | SBin o a b => NInfix (op_text o) (embed names a) (embed names b)
+  | SLand a b => NInfix [38;38]%N (embed names a) (embed names b)
+  | SLor a b => NInfix [124;124]%N (embed names a) (embed names b)
+  | STern c t f => NTernary (embed names c) (embed names t) (embed names f)
+  end.
+
+(* every variable mentioned is one of the first n declared *)
+Fixpoint wf (n : nat) (e : sexp) : bool :=
+  match e with
+  | SInt _ | SBool _ | SNil => true
+  | SVar i => Nat.ltb i n
+  | SNeg a | SNot a => wf n a
+  | SBin _ a b | SLand a b | SLor a b => wf n a && wf n b
+  | STern c t f => wf n c && wf n t && wf n f
   end.
 
 Fixpoint height (e : sexp) : nat :=
   match e with
-  | SInt _ | SBool _ | SNil => 1
+  | SInt _ | SBool _ | SNil | SVar _ => 1
   | SNeg a | SNot a => S (height a)
   | SBin _ a b | SLand a b | SLor a b => S (Nat.max (height a) (height b))
   | STern c t f => S (Nat.max (height c) (Nat.max (height t) (height f)))
@@ -46,7 +59,7 @@ Fixpoint height (e : sexp) : nat :=
 (* operand-stack slots the code of e needs above the current top *)
 Fixpoint need (e : sexp) : nat :=
   match e with
-  | SInt _ | SBool _ | SNil => 1
+  | SInt _ | SBool _ | SNil | SVar _ => 1
   | SNeg a | SNot a => need a
   | SBin _ a b => Nat.max (need a) (S (need b))
   | SLand a b | SLor a b => Nat.max (Nat.max (need a) 2) (S (need b))
@@ -69,6 +82,7 @@ Fixpoint cexp (base : nat) (e : sexp) : list N * list konst :=
   | SInt z => ([opLoadConst; N.of_nat base], [KInt z])
   | SBool b => ([if b then opTrue else opFalse], [])
   | SNil => ([opNil], [])
+  | SVar i => ([opLoadGlobal; N.of_nat i], [])
   | SNeg a => let '(ca, ka) := cexp base a in (ca ++ [opUnaryNegative], ka)
   | SNot a => let '(ca, ka) := cexp base a in (ca ++ [opUnaryNot], ka)
   | SBin o a b =>
@@ -132,15 +146,18 @@ Definition sbin (o : bop) (a b : sval) : sval + serr :=
       end
   end.
 
-Fixpoint sev (e : sexp) : sval + serr :=
+(* [rho]: the current values of the declared variables.  A variable outside rho cannot occur in a well-formed
+   program ([wf]); the clause for it only makes the function total. *)
+Fixpoint sev (rho : list sval) (e : sexp) : sval + serr :=
   match e with
   | SInt z => inl (VInt z) | SBool b => inl (VBool b) | SNil => inl VNil
-  | SNeg a => match sev a with inl (VInt z) => inl (VInt (wrap64 (- z))) | inl _ => inr EType | inr x => inr x end
-  | SNot a => match sev a with inl v => inl (VBool (negb (struthy v))) | inr x => inr x end
-  | SBin o a b => match sev a with
-                  | inl va => match sev b with inl vb => sbin o va vb | inr x => inr x end
+  | SVar i => match nth_error rho i with Some v => inl v | None => inr EType end
+  | SNeg a => match sev rho a with inl (VInt z) => inl (VInt (wrap64 (- z))) | inl _ => inr EType | inr x => inr x end
+  | SNot a => match sev rho a with inl v => inl (VBool (negb (struthy v))) | inr x => inr x end
+  | SBin o a b => match sev rho a with
+                  | inl va => match sev rho b with inl vb => sbin o va vb | inr x => inr x end
                   | inr x => inr x end
-  | SLand a b => match sev a with inl va => if struthy va then sev b else inl va | inr x => inr x end
-  | SLor a b => match sev a with inl va => if struthy va then inl va else sev b | inr x => inr x end
-  | STern c t f => match sev c with inl vc => if struthy vc then sev t else sev f | inr x => inr x end
+  | SLand a b => match sev rho a with inl va => if struthy va then sev rho b else inl va | inr x => inr x end
+  | SLor a b => match sev rho a with inl va => if struthy va then inl va else sev rho b | inr x => inr x end
+  | STern c t f => match sev rho c with inl vc => if struthy vc then sev rho t else sev rho f | inr x => inr x end
   end.
